@@ -19,6 +19,12 @@ theories/Model/Expr.vos theories/Model/Expr.vok theories/Model/Expr.required_vos
 theories/Model/Simplify.vo theories/Model/Simplify.glob theories/Model/Simplify.v.beautified theories/Model/Simplify.required_vo: theories/Model/Simplify.v theories/Model/EvalImpl.vo
 theories/Model/Simplify.vio: theories/Model/Simplify.v theories/Model/EvalImpl.vio
 theories/Model/Simplify.vos theories/Model/Simplify.vok theories/Model/Simplify.required_vos: theories/Model/Simplify.v theories/Model/EvalImpl.vos
+theories/Model/SmtLex.vo theories/Model/SmtLex.glob theories/Model/SmtLex.v.beautified theories/Model/SmtLex.required_vo: theories/Model/SmtLex.v theories/Spec/Smt.vo
+theories/Model/SmtLex.vio: theories/Model/SmtLex.v theories/Spec/Smt.vio
+theories/Model/SmtLex.vos theories/Model/SmtLex.vok theories/Model/SmtLex.required_vos: theories/Model/SmtLex.v theories/Spec/Smt.vos
+theories/Model/SmtParse.vo theories/Model/SmtParse.glob theories/Model/SmtParse.v.beautified theories/Model/SmtParse.required_vo: theories/Model/SmtParse.v theories/Model/Expr.vo theories/Model/SmtLex.vo theories/Model/SmtSer.vo
+theories/Model/SmtParse.vio: theories/Model/SmtParse.v theories/Model/Expr.vio theories/Model/SmtLex.vio theories/Model/SmtSer.vio
+theories/Model/SmtParse.vos theories/Model/SmtParse.vok theories/Model/SmtParse.required_vos: theories/Model/SmtParse.v theories/Model/Expr.vos theories/Model/SmtLex.vos theories/Model/SmtSer.vos
 theories/Model/SmtSer.vo theories/Model/SmtSer.glob theories/Model/SmtSer.v.beautified theories/Model/SmtSer.required_vo: theories/Model/SmtSer.v theories/Model/Expr.vo theories/Spec/Smt.vo theories/Model/EvalImpl.vo
 theories/Model/SmtSer.vio: theories/Model/SmtSer.v theories/Model/Expr.vio theories/Spec/Smt.vio theories/Model/EvalImpl.vio
 theories/Model/SmtSer.vos theories/Model/SmtSer.vok theories/Model/SmtSer.required_vos: theories/Model/SmtSer.v theories/Model/Expr.vos theories/Spec/Smt.vos theories/Model/EvalImpl.vos
